@@ -5,28 +5,36 @@
 EXPORT void reim_fft_simple(uint32_t m, void* data) {
   static REIM_FFT_PRECOMP* p[31] = {0};
   REIM_FFT_PRECOMP** f = p + log2m(m);
+  if (!*f) SPQLIOS_VERIF_EVENT(1, 1, log2m(m), 0, 0, 0);
   if (!*f) *f = new_reim_fft_precomp(m, 0);
+  SPQLIOS_VERIF_EVENT(2, 1, log2m(m), (*f)->m, 0, 0);
   (*f)->function(*f, data);
 }
 
 EXPORT void reim_ifft_simple(uint32_t m, void* data) {
   static REIM_IFFT_PRECOMP* p[31] = {0};
   REIM_IFFT_PRECOMP** f = p + log2m(m);
+  if (!*f) SPQLIOS_VERIF_EVENT(1, 2, log2m(m), 0, 0, 0);
   if (!*f) *f = new_reim_ifft_precomp(m, 0);
+  SPQLIOS_VERIF_EVENT(2, 2, log2m(m), (*f)->m, 0, 0);
   (*f)->function(*f, data);
 }
 
 EXPORT void reim_fftvec_mul_simple(uint32_t m, void* r, const void* a, const void* b) {
   static REIM_FFTVEC_MUL_PRECOMP* p[31] = {0};
   REIM_FFTVEC_MUL_PRECOMP** f = p + log2m(m);
+  if (!*f) SPQLIOS_VERIF_EVENT(1, 3, log2m(m), 0, 0, 0);
   if (!*f) *f = new_reim_fftvec_mul_precomp(m);
+  SPQLIOS_VERIF_EVENT(2, 3, log2m(m), (*f)->m, 0, 0);
   (*f)->function(*f, r, a, b);
 }
 
 EXPORT void reim_fftvec_addmul_simple(uint32_t m, void* r, const void* a, const void* b) {
   static REIM_FFTVEC_ADDMUL_PRECOMP* p[31] = {0};
   REIM_FFTVEC_ADDMUL_PRECOMP** f = p + log2m(m);
+  if (!*f) SPQLIOS_VERIF_EVENT(1, 4, log2m(m), 0, 0, 0);
   if (!*f) *f = new_reim_fftvec_addmul_precomp(m);
+  SPQLIOS_VERIF_EVENT(2, 4, log2m(m), (*f)->m, 0, 0);
   (*f)->function(*f, r, a, b);
 }
 
